@@ -210,6 +210,12 @@ func scriptSnapshot() []Event {
 		isolate(2), prop(1), compact(1, 1), camp(1), heal(), prop(1))
 }
 
+// scriptSnapshotUnreachable: the snapshot for node 3 travels slowly; meanwhile the transport
+// reports node 3 unreachable and the leader keeps accepting proposals.
+func scriptSnapshotUnreachable() []Event {
+	return seq(camp(1), prop(1), isolate(3), prop(1), prop(1), compact(1, 0), heal(), prop(1), unreach(1, 3), prop(1), prop(1), unreach(1, 3), prop(1))
+}
+
 func scriptSnapshotRestart() []Event {
 	return seq(camp(1), prop(1), prop(1), compact(2, 0), crash(2, CrashAppliedZero), isolate(3), prop(1), prop(1), compact(1, 0), heal(), prop(1),
 		crash(3, 0), prop(1), compact(3, 0), crash(3, CrashAppliedZero), prop(1))
@@ -372,6 +378,21 @@ func scriptReplaceTwo() []Event {
 func replaceTwoSc(f feat, k int, budgets ...int) *Scenario {
 	s := ddScn("replace-two", 5, ids(3), f, scriptReplaceTwo(), k, budgets...)
 	s.ConfMenu = []ConfSpec{{Transition: pb.ConfChangeTransitionJointExplicit, Changes: "v4 v5 r2 r3"}, ccLeave}
+	return s
+}
+
+// scriptAutoLeaveDuringTransfer: a leadership transfer to a cut-off node is pending while the
+// leader applies an auto-leave joint change and the entry behind it (the automatic leave
+// proposal is refused during a transfer); the transfer then times out and the leader has to
+// retry the leave on a later apply.
+func scriptAutoLeaveDuringTransfer() []Event {
+	return seq(ticks(1, 3), prop(1), cut(1, 3), holdFrom(2), conf(1, 0), prop(1), xfer(1, 3), flush(), ticks(1, 4), prop(1), heal(), prop(1), prop(1))
+}
+
+func autoLeaveTransferSc(f feat, k int, budgets ...int) *Scenario {
+	s := tickSc("autoleave-during-transfer", 3, f, scriptAutoLeaveDuringTransfer(), k, budgets...)
+	s.ConfMenu = []ConfSpec{{Transition: pb.ConfChangeTransitionJointImplicit, Changes: "l3"}}
+	s.TickNodes = []uint8{1}
 	return s
 }
 
@@ -540,6 +561,15 @@ func scriptPrevoteRejoin() []Event {
 
 func scriptCheckQuorumLease() []Event {
 	return seq(ticks(1, 3), prop(1), roundTicks(3, 1), camp(3), isolate(1), ticks(1, 3), ticks(1, 3), ticks(2, 4), heal(), roundTicks(3, 2), prop(2), xfer(2, 3), roundTicks(3, 2))
+}
+
+// scriptCheckQuorumReports: the leader is cut off; its transport keeps reporting the peers
+// unreachable (and a snapshot failure, and a transfer request arrives) – local reports about a
+// peer are not contact with that peer.
+func scriptCheckQuorumReports() []Event {
+	return seq(ticks(1, 3), prop(1), roundTicks(3, 1), isolate(1),
+		ticks(1, 2), unreach(1, 2), unreach(1, 3), ticks(1, 2), unreach(1, 2), reportSnap(1, 3, 1), ticks(1, 2), xfer(1, 2), unreach(1, 3), ticks(1, 2), unreach(1, 2), unreach(1, 3), ticks(1, 2),
+		ticks(2, 4), heal(), roundTicks(3, 2), prop(2))
 }
 
 // ---------------------------------------------------------------- catalogue
@@ -753,6 +783,7 @@ func poolConf(tier string) (p pool) {
 	}
 	for _, f := range []feat{syncF, asyncF} {
 		p.dd = append(p.dd, replaceTwoSc(f, k, defaultFaults...))
+		p.dd = append(p.dd, autoLeaveTransferSc(f, k, int(BTick), 1, int(BDrop), 1, int(BDup), 1))
 	}
 	{
 		cl := ddScn("conf-lag", 3, ids(3), asyncF, scriptConfLag(), k, defaultFaults...)
@@ -842,6 +873,11 @@ func poolFlow(tier string) (p pool) {
 			p.dd = append(p.dd, s)
 		}
 	}
+	for _, f := range []feat{syncF, asyncF} {
+		su := tickSnap(ddScn("snapshot-unreachable", 3, ids(3), f, scriptSnapshotUnreachable(), k, defaultFaults...))
+		su.SlowSnap = true
+		p.dd = append(p.dd, su)
+	}
 	// uneven entry sizes across the stable/unstable boundary of the leader's log
 	{
 		c := flowCfg(asyncF, 8, 40, 0, 0)
@@ -861,6 +897,9 @@ func poolTick(tier string) (p pool) {
 			tickSc("prevote-rejoin", 3, f, scriptPrevoteRejoin(), k, tb...),
 			tickSc("checkquorum-lease", 3, f, scriptCheckQuorumLease(), k, tb...),
 		)
+	}
+	for _, f := range []feat{cqF, pvcqF} {
+		p.dd = append(p.dd, tickSc("checkquorum-reports", 3, f, scriptCheckQuorumReports(), k, tb...))
 	}
 	for _, f := range []feat{cqF, pvcqF} {
 		sl := tickSc("snap-lease", 3, f, scriptSnapLease(), k, tb...)
